@@ -1173,7 +1173,9 @@ func (env *Environment) setState(state string) {
 func (env *Environment) subscribeToWfState(taskman *task.Manager) {
 	go func() {
 		wf := env.Workflow()
-		notify := make(chan sm.State)
+		// Buffered: ParentAdapter.updateState never blocks, so a value sent while this goroutine
+		// is between two receives would otherwise be dropped (and an ERROR never acted upon).
+		notify := make(chan sm.State, 1)
 		subscriptionId := uuid.NewUUID().String()
 		env.wfAdapter.SubscribeToStateChange(subscriptionId, notify)
 		defer env.wfAdapter.UnsubscribeFromStateChange(subscriptionId)
@@ -1186,6 +1188,11 @@ func (env *Environment) subscribeToWfState(taskman *task.Manager) {
 			for {
 				select {
 				case wfState = <-notify:
+					// A notification may still have been dropped while the buffer was full: the value
+					// just received can be stale, the root role is not.
+					if wfState != sm.ERROR && wf.GetState() == sm.ERROR {
+						wfState = sm.ERROR
+					}
 					if wfState == sm.ERROR {
 						if !handlingError {
 							handlingError = true
